@@ -137,6 +137,45 @@ func (s *slicer) allocFrame(v ssa.Value, k int, depth int) (ctor *ssa.Call, fram
 	return nil, 0, fmt.Sprintf("has an unrecognised origin (%T)", v)
 }
 
+// returnsFreshFrom: every result H returns is the result of a call of the constructor named
+// ctor made in H itself (possibly configured through method calls before it is returned).
+func returnsFreshFrom(c *Ctx, H *ssa.Function, ctor string) bool {
+	if H == nil || !c.P.IsRepoFn(H) || len(H.Blocks) == 0 {
+		return false
+	}
+	n, good := 0, true
+	allInstrs(H, func(in ssa.Instruction) {
+		r, ok := in.(*ssa.Return)
+		if !ok || len(r.Results) == 0 || c.Loud().BlockDies(r.Block()) {
+			return
+		}
+		n++
+		v := stripConv(r.Results[0])
+		if ld, isLd := v.(*ssa.UnOp); isLd && ld.Op == token.MUL {
+			if al, isAl := ld.X.(*ssa.Alloc); isAl {
+				var stored []ssa.Value
+				for _, rr := range referrers(al) {
+					if st, isSt := rr.(*ssa.Store); isSt && st.Addr == ssa.Value(al) {
+						stored = append(stored, st.Val)
+					}
+				}
+				if len(stored) == 1 {
+					v = stripConv(stored[0])
+				}
+			}
+		}
+		call, isCall := v.(*ssa.Call)
+		if !isCall {
+			good = false
+			return
+		}
+		if f := staticCallee(&call.Call); f == nil || f.Name() != ctor {
+			good = false
+		}
+	})
+	return good && n > 0
+}
+
 // RuleIsoFresh: per-file objects are allocated per file.
 func (c *Ctx) RuleIsoFresh() *Result {
 	res := &Result{Rule: "ISO-FRESH", MinInst: 4}
@@ -206,6 +245,13 @@ func (c *Ctx) RuleIsoFresh() *Result {
 								continue
 							}
 							cf2 := staticCallee(&c2.Call)
+							if cf2 != nil && cf2.Name() != w.ctxArgCtor && returnsFreshFrom(c, staticFn(&c2.Call), w.ctxArgCtor) {
+								// a helper that makes the context, configures it and hands it back: as fresh as its call
+								if fr2 <= wi {
+									problems = append(problems, fmt.Sprintf("via %s: the processors context (stash of stored expressions) is created in %s, outside the per-file callback, and shared by every file of the --all run", ch.String(), load.FnName(sl.fnAt(fr2))))
+								}
+								continue
+							}
 							if cf2 == nil || cf2.Name() != w.ctxArgCtor {
 								problems = append(problems, fmt.Sprintf("via %s: the context given to %s is not the result of %s", ch.String(), w.ctorName, w.ctxArgCtor))
 								continue
@@ -904,6 +950,44 @@ func (c *Ctx) RuleFlagsReject() *Result {
 			})
 			return found, found != nil
 		}
+		// the test one level further down: f hands the child to a helper that tests it, and
+		// every return of f that is not a failure comes after that call, whose error is handled
+		checkedBelow := func(f *ssa.Function, pv ssa.Value) bool {
+			var inner *ssa.Call
+			for _, r := range referrers(pv) {
+				call, ok := r.(*ssa.Call)
+				if !ok || call.Parent() != f {
+					continue
+				}
+				g := staticFn(&call.Call)
+				if g == nil || !c.P.IsRepoFn(g) {
+					continue
+				}
+				for i, a := range call.Call.Args {
+					if a == pv && i < len(g.Params) {
+						if _, ok := checker(g, g.Params[i]); ok {
+							if v, have := c.ErrVerdicts()[call]; have && v.Verdict == Violated {
+								continue
+							}
+							inner = call
+						}
+					}
+				}
+			}
+			if inner == nil {
+				return false
+			}
+			good := true
+			allInstrs(f, func(in ssa.Instruction) {
+				if r, ok := in.(*ssa.Return); ok && !instrDominates(inner, r) && !c.Loud().BlockDies(r.Block()) {
+					if e := retErrOperand(r); e != nil && (errOperandAlwaysNonNil(e) || domFacts(r.Block())[e] == nonNil) {
+						return
+					}
+					good = false
+				}
+			})
+			return good
+		}
 		okHere := false
 		if _, ok := checker(fn, child); ok {
 			okHere = true
@@ -921,7 +1005,7 @@ func (c *Ctx) RuleFlagsReject() *Result {
 				}
 				for i, a := range call.Call.Args {
 					if a == ssa.Value(child) && i < len(sf.Params) {
-						if _, ok := checker(sf, sf.Params[i]); ok {
+						if _, ok := checker(sf, sf.Params[i]); ok || checkedBelow(sf, sf.Params[i]) {
 							if v, have := c.ErrVerdicts()[call]; have && (v.Verdict == Violated) {
 								continue
 							}
